@@ -10,7 +10,7 @@ for f in sorted(glob.glob(os.path.join(HERE, "seeded", "*", "meta.json"))):
     m = json.load(open(f))
     how = []
     for c, v in (m.get("checks") or {}).items():
-        p = any("VIOLATION" in l and ("post" in l or "pre@call" in l or "inv." in l or "noraise" in l) for l in v["lines"])
+        p = any("VIOLATION" in l and ("post" in l or "pre@call" in l or "inv." in l or "noraise" in l or "frame." in l) for l in v["lines"])
         nofail = any("no-failing-input-found" in l for l in v["lines"])
         b = any("VIOLATION" in l for l in v["lines"]) and not nofail
         und = sum(1 for l in v["lines"] if l.startswith("UNDECIDED"))
